@@ -141,6 +141,10 @@ def read_graph(graph_raw) -> nx.DiGraph:
 
     if G.number_of_edges() == 0:
         utils.logger.info(f"Graph {graph_id} has no edges.")
+        # (the stored counts exist for every block; no width is defined for a graph without edges)
+        G.graph["n"] = G.number_of_nodes()
+        G.graph["m"] = 0
+        G.graph["w"] = None
         return G
 
     G.graph["n"] = G.number_of_nodes()
